@@ -352,8 +352,26 @@ class Engine:
 
     # ---- run --------------------------------------------------------------------------
     def run(self):
+        st = self.prepare()
+        fn = self.fn
+        exits = []
+        try:
+            outs = self.exec_block(fn.body, st, exits)
+        except _Break:
+            raise Unsupported("break outside loop")
+        for s in outs:          # fell off the end: return None
+            exits.append(Exit("return", s, NONE, line=fn.end_lineno))
+        for e in exits:
+            self.check_exit(e)
+        return self.vcs
+
+    def prepare(self, assume_requires=True):
+        """The entry state of the contract: parameters, setup, requires (with assume_requires=False the preconditions are only RECORDED in
+        self.pre_facts: used by the conformance check of call-site contracts, pyvc/conform.py), lemmas."""
         st = State()
         fn = self.fn
+        self.assume_requires = assume_requires
+        self.pre_facts = []
         args = [a.arg for a in fn.args.args]
         defaults = fn.args.defaults
         for a in args:
@@ -366,7 +384,7 @@ class Engine:
         if self.c.setup:
             self.c.setup(self, st)
         for r in self.c.requires:
-            st.assume(self.spec_bool(r, st))
+            self.require(st, self.spec_bool(r, st))
         for k, lem in enumerate(self.c.lemmas):
             f = lem(self, st)
             self.vcs.append(("lemma:%d" % k, list(st.pc), f, None))
@@ -374,16 +392,13 @@ class Engine:
         self.old = {k: v for k, v in st.env.items()}
         self.old_fields = {k: dict(v.fields) for k, v in st.env.items() if isinstance(v, Obj)}
         self.entry = st.copy()
-        exits = []
-        try:
-            outs = self.exec_block(fn.body, st, exits)
-        except _Break:
-            raise Unsupported("break outside loop")
-        for s in outs:          # fell off the end: return None
-            exits.append(Exit("return", s, NONE, line=fn.end_lineno))
-        for e in exits:
-            self.check_exit(e)
-        return self.vcs
+        return st
+
+    def require(self, st, z):
+        """A precondition of the contract (from `requires` or stated by the setup): assumed on entry; an obligation of every caller."""
+        self.pre_facts.append(z)
+        if getattr(self, "assume_requires", True):
+            st.assume(z)
 
     def make_param(self, name, kind, st):
         if kind == "int":
